@@ -341,8 +341,8 @@ func evalFunc(e *Expr, env *Env) Value {
 			unspecified("loop function on a non-variable")
 		}
 		name := e.Args[0].Name
-		idx, ok1 := env.lookup(name + "__index")
-		last, ok2 := env.lookup(name + "__last")
+		idx, ok1 := env.lookup(name + " index")
+		last, ok2 := env.lookup(name + " last")
 		if !ok1 || !ok2 {
 			unspecified("loop function on a non-loop variable")
 		}
